@@ -1735,3 +1735,34 @@ def r12_11(rep):
     import c14
     c14.r14_1(rep)
     c14.r14_4(rep)
+
+
+@RULES.rule("R12.12", "a calling convention Rust cannot name is reported or skipped, never a panic", floor=2)
+def r12_12(rep):
+    """clang accepts `__attribute__((regcall))`, `preserve_most`, … ; bindgen records them as `ClangAbi::Unknown(n)`.  Every place
+    that handles that variant must produce an error value / skip the item: `Function::codegen` used to `panic!` (repaired by a
+    fix: commit); `ToTokens for ClangAbi` still panics when such a convention appears on a function-POINTER type."""
+    from hir import pat_variants as _pv
+    prog = rep.prog
+    UNK = "ir::function::ClangAbi::Unknown"
+    n = 0
+    for p, b in prog.bodies.items():
+        for m in b.walk():
+            if m["k"] != "Match":
+                continue
+            for a in m["arms"]:
+                def has_unknown(pat):
+                    if UNK in _pv(pat):
+                        return True
+                    return any(has_unknown(q) for q in pat.get("ps", [])) or ("p" in pat and isinstance(pat["p"], dict) and has_unknown(pat["p"])) or \
+                        any(has_unknown(f["p"]) for f in pat.get("fs", []))
+                if not has_unknown(a["pat"]):
+                    continue
+                n += 1
+                body = a["body"]
+                panics = [x for x in b.walk(body) if x["k"] == "Call" and ((x.get("callee") or "").startswith("std::rt::panic") or
+                                                                            (x.get("callee") or "").startswith("core::panicking") or
+                                                                            (x.get("callee") or "").startswith("std::rt::begin_panic"))]
+                fn = "::".join(p.split("::")[-2:]) if not p.startswith("<") else re.sub(r"<(.*?) as (.*?)>::(\w+)", lambda mm: "%s for %s::%s" % (mm.group(2).split("::")[-1], mm.group(1).split("::")[-1], mm.group(3)), p)
+                rep.check(not panics, "unknown-abi-panics@%s" % fn, "the `ClangAbi::Unknown` arm of %s %s" % (fn, "panics" if panics else "does not panic"), b.loc(body))
+    rep.check(n >= 2, "unknown-abi-arms", "%d arms handling ClangAbi::Unknown" % n)
